@@ -195,7 +195,7 @@ func (x *Exec) VerifyFamily(fn *ssa.Function) (rep *FuncReport) {
 					if os.Getenv("GOWP_DEBUG") != "" {
 						msg += "\n" + string(debug.Stack())
 					}
-					if partial && (strings.Contains(msg, "of kind ") || strings.Contains(msg, "kind of") && strings.Contains(msg, "not determined")) {
+					if partial && (strings.Contains(msg, "of kind ") || strings.Contains(msg, "kind of") && strings.Contains(msg, "not determined") || strings.Contains(msg, "no closure clause of")) {
 						// the contract says it covers the 17 basic kinds only: closures for other
 						// kinds are not under contract (counted and reported, never claimed)
 						rep.Uncovered = append(rep.Uncovered, sig+": "+msg)
@@ -497,6 +497,7 @@ func (x *Exec) checkClosure(sp *spec.FuncSpec, s *closureSite, sig string) {
 	x.prefix = QualName(s.frame.fn)
 	x.sig = sig
 	var exprC, stmtC, jumpC, modC *spec.Clause
+	exprVoid := false
 	var reqs, invs, ensC []*spec.Clause
 	for _, c := range sp.Of("closure") {
 		w := strings.Fields(c.Text)
@@ -504,8 +505,43 @@ func (x *Exec) checkClosure(sp *spec.FuncSpec, s *closureSite, sig string) {
 			continue
 		}
 		switch w[0] {
-		case "expr":
+		case "expr", "do":
+			// "expr E [if cond]" / "do E [if cond]": the first clause whose condition (over the compile
+			// function's values at creation) holds on this path applies; "do" ignores the value
+			if exprC != nil {
+				continue
+			}
+			txt := strings.TrimSpace(strings.TrimPrefix(strings.TrimSpace(c.Text), w[0]))
+			if k := strings.LastIndex(txt, " if "); k >= 0 {
+				ce, err := spec.ParseExpr(txt[k+4:])
+				if err != nil {
+					specErr("%v", err)
+				}
+				ok := false
+				func() {
+					defer func() {
+						if r := recover(); r != nil {
+							if _, isS := r.(SpecError); isS {
+								return
+							}
+							if _, isU := r.(Unsupported); isU {
+								return
+							}
+							panic(r)
+						}
+					}()
+					cond := x.simplifyUnder(s.st.PC, s.frame.evalBool(ce, s.st, s.st))
+					ok = cond.IsTrue() || (!cond.IsFalse() && x.entailed(x.dropQuantified(s.st.PC), cond))
+				}()
+				if !ok {
+					continue
+				}
+				cc := *c
+				cc.Text = w[0] + " " + strings.TrimSpace(txt[:k])
+				c = &cc
+			}
 			exprC = c
+			exprVoid = w[0] == "do"
 		case "stmt":
 			stmtC = c
 		case "jump":
@@ -521,7 +557,7 @@ func (x *Exec) checkClosure(sp *spec.FuncSpec, s *closureSite, sig string) {
 		}
 	}
 	if exprC == nil && stmtC == nil && jumpC == nil && modC == nil {
-		specErr("%s creates closures but its contract has no 'closure expr', 'closure stmt' or 'closure jump' clause", QualName(s.frame.fn))
+		specErr("no closure clause of %s applies on this creation path", QualName(s.frame.fn))
 	}
 	clo := s.clo
 	fn := clo.Fn
@@ -630,16 +666,25 @@ func (x *Exec) checkClosure(sp *spec.FuncSpec, s *closureSite, sig string) {
 	if exprC == nil && stmtC == nil && jumpC == nil {
 		// frame-only contract: checked after the run (see below)
 	} else if exprC != nil {
-		e, err := spec.ParseExpr(strings.TrimSpace(strings.TrimPrefix(strings.TrimSpace(exprC.Text), "expr")))
+		e, err := spec.ParseExpr(strings.TrimSpace(strings.TrimPrefix(strings.TrimPrefix(strings.TrimSpace(exprC.Text), "expr"), "do")))
 		if err != nil {
 			x.NoObl--
 			specErr("%v", err)
 		}
 		tv := specFrame.eval(e, specSt, s.st)
 		specRes = []Value{tv.V}
+		if exprVoid {
+			specRes = nil
+		}
 		// result type must be the Go type of the kind selected on this path
 		rt := fn.Signature.Results()
-		if rt.Len() != 1 || (tv.T != nil && !types.Identical(rt.At(0).Type().Underlying(), tv.T.Underlying())) {
+		if exprVoid {
+			if rt.Len() != 0 {
+				x.NoObl--
+				x.oblige("closure-type", "closure returns nothing", x.where(fn), run, B.False())
+				return
+			}
+		} else if rt.Len() != 1 || (tv.T != nil && !types.Identical(rt.At(0).Type().Underlying(), tv.T.Underlying())) {
 			x.NoObl--
 			x.oblige("closure-type", fmt.Sprintf("closure returns %s, the contract value has type %s", rt, tv.T), x.where(fn), run, B.False())
 			return
@@ -653,7 +698,9 @@ func (x *Exec) checkClosure(sp *spec.FuncSpec, s *closureSite, sig string) {
 	}
 	x.NoObl--
 	// 2. the closure itself
+	x.famSafety = sp.Flags["safety"]
 	res := nf.run(run.clone(), args)
+	x.famSafety = false
 	if len(res.Rets) == 0 {
 		x.oblige("closure-returns", "the closure has a normal return", x.where(fn), run, B.False())
 		return
@@ -697,6 +744,11 @@ func (x *Exec) checkClosure(sp *spec.FuncSpec, s *closureSite, sig string) {
 				x.oblige("closure-frame", "the frame reached by the loop is up(env, upn)", where, r.st, B.Eq(o, fe.specFrame))
 				sub[o] = fe.specFrame
 			}
+			// (the lemma just stated is also made available as a hypothesis of what follows: the loop
+			// variable may occur where the substitution below does not reach, e.g. in call tokens)
+			for _, o := range loopFrames {
+				r.st.PC = B.And(r.st.PC, B.Eq(o, fe.specFrame))
+			}
 			for k, v := range r.st.heap {
 				r.st.heap[k] = B.Subst(v, sub)
 			}
@@ -707,7 +759,10 @@ func (x *Exec) checkClosure(sp *spec.FuncSpec, s *closureSite, sig string) {
 			}
 		}
 		var goal *smt.Term
-		if exprC == nil && stmtC == nil && jumpC == nil {
+		if exprC == nil && stmtC == nil && jumpC == nil && strings.TrimSpace(strings.TrimPrefix(strings.TrimSpace(modC.Text), "modifies")) == "everything" {
+			// no frame claim at all: only the safety obligations generated while running the closure
+			goal = B.True()
+		} else if exprC == nil && stmtC == nil && jumpC == nil {
 			// frame-only contract: the final heap equals the initial heap except at the listed places
 			x.NoObl++
 			expect := x.frameOnlyState(specFrame, fe, modC, run.clone(), r.st, s.st)
@@ -738,6 +793,9 @@ func (x *Exec) checkClosure(sp *spec.FuncSpec, s *closureSite, sig string) {
 			x.NoObl--
 			nf.cur, nf.curIdx = sc, si
 			x.oblige("closure-ensures", ec.Text, where, r.st, g)
+		}
+		if len(frameSub) > 0 {
+			goal = B.Subst(goal, frameSub)
 		}
 		goal = x.simplifyUnder(r.st.PC, goal)
 		ob := x.oblige("closure", clauseText, where, r.st, goal)
